@@ -45,7 +45,7 @@ ASSUMPTIONS = [
     "snapshots are taken of a non-empty combined model only (the in-memory clone of an empty graph is undefined)",
     "source models carry no StructuralInfo of their own",
 ]
-BUDGET = {"quick": 800, "thorough": 20000}
+BUDGET = {"quick": 800, "thorough": 8000}
 SIG_CONTRACTION = "C14/merge_nodes/edge-contraction-attribute"
 SIG_NO_OWN = "C14/merge/raised/adm-without-own-nodes"
 MIN_LABEL_FRACTION = {"models>=2": 0.5, "shared-nodes": 0.45, "hist-unmerge": 0.2, "hist-rollback": 0.07,
